@@ -35,6 +35,12 @@ fn main() {
             let nunits = plan.units.len();
             let partial = run_units(plan.units, threads, default_deadline(tier.name()));
             let wall = start.elapsed().as_secs_f64();
+            let mut partial = partial;
+            if partial.samples.is_empty() {
+                if let Some(f) = partial.fallback_sample.take() {
+                    partial.samples.push(f);
+                }
+            }
             let mut viols: Vec<Value> = Vec::new();
             for v in &partial.violations {
                 viols.push(json!({
@@ -91,6 +97,24 @@ fn main() {
                     std::process::exit(1);
                 }
             }
+        }
+        "tape" => {
+            // explain a raw fuzz input: decode, run, shrink, write violation records
+            let target = arg(&args, "--target").expect("--target");
+            let file = arg(&args, "--file").expect("--file");
+            let out = arg(&args, "--out").expect("--out");
+            let profile = arg(&args, "--profile").unwrap_or_else(|| "chk".into());
+            let data = std::fs::read(&file).expect("read input");
+            let mut viols: Vec<Value> = Vec::new();
+            if let Err(v) = fcverif::fuzz_entry::run_target(&target, &data, true) {
+                viols.push(json!({
+                    "property": v.property, "engine": v.engine, "spec": v.spec, "variant": v.variant,
+                    "message": v.message, "signature": v.signature, "size": v.size, "profile": profile,
+                    "case": v.case,
+                }));
+            }
+            std::fs::write(&out, json!({"violations": viols}).to_string()).expect("write out");
+            std::process::exit(if viols.is_empty() { 0 } else { 1 });
         }
         _ => {
             eprintln!("usage: fcverif run --prop Cxx --tier quick|thorough --seed N --out FILE [--threads N] [--profile chk|wrap]\n       fcverif replay --file FILE");
